@@ -474,6 +474,7 @@ def lSetOp (E : Env K Unit Q) (R : Render K Unit) (prof : Profile) (cap : Nat)
   | .fmt kind => .ok (.str (lFmtSet R kind l)) l
   | .drop | .forget => .ok .unit []
   | .serde _ => .ok .unit l
+  | .extend_from _ => .ok .unit l
 
 /-! ### operations that build a new container and assign it to a register -/
 
@@ -539,6 +540,21 @@ def lstepCore (E : Env K V Q) (R : Render K V) (ls : LSys K V) : Op K V Q → LR
       -- inserts) into a set of `a`'s capacity — which always suffices
       let diff := src.l.filter fun p => !(findKey E.toUnit (ls.sets o).l (.key p.1)).isSome
       .ok .unit (ls.setSet dst ⟨src.cap, FromIter.foldInsert E.toUnit [] (cloneL E.toUnit diff)⟩)
+    | .extend_from o =>
+      -- `a.extend(b)` with the set `b` moved in (`o = reg` cannot be written: nothing happens).
+      -- The consuming iterator pops from the END of `b`: the keys arrive last first and go into `a`
+      -- by single inserts (a key `a` already holds is dropped, a new one is appended); `b` is
+      -- consumed.  When a new key finds `a` full, the keys before it went in and stay in, and the
+      -- rest of `b` is dropped with the iterator: `b` is empty in either case.
+      if o = reg then .ok .unit ls else
+      let items := (ls.sets o).l.reverse
+      let emptied := ls.setSet o ⟨(ls.sets o).cap, []⟩
+      if FromIter.overflowAt E.toUnit src.cap src.l items = none then
+        .ok .unit (emptied.setSet reg ⟨src.cap, FromIter.foldInsert E.toUnit src.l items⟩)
+      else
+        .panic (fullPanic ls.profile)
+          (emptied.setSet reg ⟨src.cap, FromIter.foldInsert E.toUnit src.l
+            (items.take ((FromIter.overflowAt E.toUnit src.cap src.l items).getD 0))⟩)
     | op => liftSet ls reg (lSetOp E.toUnit R.toUnit ls.profile src.cap (fun o => (ls.sets o).l) src.l op)
   | .umap reg op =>
     let src := ls.sets reg
